@@ -1,4 +1,5 @@
 import GrpcProofs.Lemmas.ClusterRefs2
+import GrpcProofs.Lemmas.PluginRefs
 /-!
 # C51  A cluster stays usable until every RPC routed to it is committed
 
@@ -110,5 +111,20 @@ example : (run [.rds [1, 1], .deliver, .rds [2], .deliver, .deliver]).pushedSC =
 example :
     let s := run [.rds [1, 1], .deliver, .select 1 1, .rds [2], .deliver]
     s.pushedSC = [1, 2] ∧ s.active.map (fun i => (i.name, i.refCount)) = [(1, 1), (2, 1)] := by decide
+
+/-! ### cluster specifier plugins (model: GrpcModel/Model/PluginRefs.lean) -/
+
+/-- The config selector handed to the channel is always the resolver's CURRENT one — in particular
+    after the callback that regenerates the service config when the last reference to a plugin is
+    released (late OnCommitted on a removed plugin): a selector that was replaced (and stopped) is
+    never installed again. For every sequence of updates, regenerations, selections and commits. -/
+theorem installed_selector_is_current (ops : List GrpcModel.PluginRefs.Op) :
+    (GrpcModel.PluginRefs.run ops).pushedSel = (GrpcModel.PluginRefs.run ops).curSel :=
+  GrpcProofs.Lemmas.PluginRefs.run_sel ops
+
+/-- non-vacuity: a late commit on a removed plugin regenerates the config {p2} with selector #2 -/
+example :
+    let s := GrpcModel.PluginRefs.run [.update [1], .select 1 1, .update [2], .commit 1, .regen]
+    s.pushedSP = [2] ∧ s.pushedSel = 2 ∧ s.pending = 0 := by decide
 
 end GrpcProofs.C51
